@@ -1133,8 +1133,13 @@ func (s *Fn) houdini() {
 						if base != ssa.Value(phi) {
 							continue
 						}
-						w, isInstr := rhs.(ssa.Instruction)
-						if !isInstr || !isInt(rhs.Type()) || !(w.Block() != b && w.Block().Dominates(b)) {
+						if _, isK := rhs.(*ssa.Const); !isK {
+							w, isInstr := rhs.(ssa.Instruction)
+							if !isInstr || !(w.Block() != b && w.Block().Dominates(b)) {
+								continue
+							}
+						}
+						if !isInt(rhs.Type()) {
 							continue
 						}
 						bound := rhs
